@@ -308,6 +308,8 @@ class ModuleState:
     import-time contents before every path and every native run, so that runs are independent of each other"""
 
     _snap = None
+    _scalars = None
+    SCALAR = (int, float, str, bytes, bool, tuple, frozenset, type(None))
 
     @classmethod
     def _targets(cls):
@@ -323,10 +325,21 @@ class ModuleState:
             cls._snap = {}
             for m, k, v in cls._targets():
                 cls._snap[(m.__name__, k)] = (v, type(v)(v))
+            cls._scalars = {}
+            for n, m in list(sys.modules.items()):
+                if m is not None and (n == "dpapi_ng" or n.startswith("dpapi_ng.")):
+                    for k, v in list(vars(m).items()):
+                        if isinstance(v, cls.SCALAR) and not k.startswith("__"):
+                            cls._scalars[(n, k)] = v
 
     @classmethod
     def restore(cls):
         cls.snapshot()
+        # module-level scalars rebound through a `global` statement (counters, flags)
+        for (n, k), v in cls._scalars.items():
+            m = sys.modules.get(n)
+            if m is not None and vars(m).get(k, v) is not v:
+                setattr(m, k, v)
         for m, k, v in cls._targets():
             key = (m.__name__, k)
             if key in cls._snap:
